@@ -1,10 +1,31 @@
 #!/bin/bash
-# setup_cmd: configure and build the san tree (repo libs + every harness binary) from files on disk only.
-set -e
+# setup_cmd: configure and build the san tree (repo libs + the harness binary of every claimed property) from files on disk only.
+# A harness binary that fails to build does not fail the setup: its check reports BUILD-FAILED (exit 2) on its own.
 V=$(cd "$(dirname "$0")/.." && pwd)
 cd "$V"
 export CCACHE_DIR=$V/build/ccache
 mkdir -p build/work/tmp
-[ -f build/san/build.ninja ] || bin/configure.sh san > build/configure-san.log 2>&1 || { tail -50 build/configure-san.log; exit 1; }
-ninja -C build/san vh_all > build/build-san.log 2>&1 || { tail -80 build/build-san.log; exit 1; }
-echo "setup ok: $(ls build/san/vh | wc -l) harness binaries"
+if [ ! -f build/san/build.ninja ]; then
+  bin/configure.sh san > build/configure-san.log 2>&1 || { tail -50 build/configure-san.log; echo "setup: configure failed"; exit 1; }
+fi
+TARGETS=$(python3 - <<'P'
+import sys, os
+sys.path.insert(0, "bin")
+import props
+t = set()
+for pid, sp in props.PROPS.items():
+    for st in sp["stages"]:
+        if st["kind"] in ("gen", "enum") and st.get("cfg", "san") == "san":
+            t.add(st["binary"])
+        for cfg, tg in st.get("needs", []):
+            if cfg == "san":
+                t.add(tg)
+print(" ".join(sorted(t)))
+P
+)
+flock build/san.lock ninja -C build/san -k 0 $TARGETS > build/build-san.log 2>&1
+rc=$?
+[ $rc -eq 0 ] || { grep -E "FAILED|error:" build/build-san.log | head -40; echo "setup: some harness binaries failed to build (their checks will report BUILD-FAILED)"; }
+ls build/san/lib/libbitcoin_node.a > /dev/null 2>&1 || { echo "setup: repository libraries did not build"; tail -40 build/build-san.log; exit 1; }
+echo "setup ok: $(ls build/san/vh 2>/dev/null | wc -l) harness binaries"
+exit 0
